@@ -21,6 +21,12 @@ import Webp.Proofs.VP8Range
     harness finds the SSE2/AVX2 kernels differing from the portable ones exactly there
     (`kernel:Transform/wide:*`, `kernel:TransformWHT/wide:*`, … and, through crafted streams,
     `pipeline:decode-mutated:*`);
+    measured boundaries (suite `kernels`, range scan, both SSE2 and AVX2): inverse DCT kernels equal to the
+    portable ones for every tried block with |coeff| ≤ 2212, first difference at 2213 on the block
+    `+M −M +M −M …`; inverse and forward WHT equal up to 2047, first difference at 2048 on the all-equal
+    block (so `wht_fits_int16` is tight); quantiser equal up to |in| = 32755 (= 32768 − max sharpen − 1);
+    in-range equality (|coeff| ≤ 2047) is what the suite counts against C13, the rest is listed as
+    `kernel-range:<name>`;
   * `quantize_sign_symmetry`, `quantize_level_bounded` (the SIMD quantiser handles signs with masks);
   * the fast-path lemmas shared with C04 are in `Props/C04Kernels.lean`.
 -/
